@@ -5,6 +5,7 @@ import (
 	"flag"
 	"fmt"
 	"os"
+	"os/exec"
 	"path/filepath"
 	"sort"
 	"strconv"
@@ -478,6 +479,7 @@ func (cr *checkRun) report(evPath string, t0 time.Time, seed int, quiet bool, ve
 		code = 1
 		os.MkdirAll(filepath.Join(verifDir, "replays"), 0o755)
 		for _, v := range violations {
+			cr.tryReplay(v)
 			path, tail := cr.writeReplay(v, verifDir)
 			fmt.Printf("VIOLATION property=%s replay=%s obligation=%s status=%s%s\n", prop, path, v.Obl.Name, v.Status, tail)
 		}
@@ -525,18 +527,70 @@ type ReplayOutcome struct {
 	Verdict  string `json:"verdict"` // property-violated | passes | spurious-prestate | not-replayable
 	Output   string `json:"output"`
 	TestFile string `json:"test_file,omitempty"`
+	Package  string `json:"package,omitempty"`     // package directory (relative to the repository root) the test belongs to
+	Source   string `json:"test_source,omitempty"` // the generated in-package test (re-run by /verif/bin/replay)
+}
+
+// runModelReplay injects the generated test into the package with `go test -overlay` and runs it.
+func runModelReplay(repo, pkgRel, src string) (verdict, output string) {
+	tmp, err := os.MkdirTemp("", "govc-mr")
+	if err != nil {
+		return "not-replayable", err.Error()
+	}
+	defer os.RemoveAll(tmp)
+	for _, f := range []string{"go.mod", "go.sum"} {
+		b, err := os.ReadFile(filepath.Join(repo, f))
+		if err != nil {
+			return "not-replayable", err.Error()
+		}
+		os.WriteFile(filepath.Join(tmp, f), b, 0o644)
+	}
+	tf := filepath.Join(tmp, "zz_verif_model_replay_test.go")
+	os.WriteFile(tf, []byte(src), 0o644)
+	ob, _ := json.Marshal(map[string]interface{}{"Replace": map[string]string{filepath.Join(repo, pkgRel, "zz_verif_model_replay_test.go"): tf}})
+	os.WriteFile(filepath.Join(tmp, "ov.json"), ob, 0o644)
+	cmd := exec.Command("go", "test", "-modfile="+filepath.Join(tmp, "go.mod"), "-overlay="+filepath.Join(tmp, "ov.json"), "-vet=off", "-count=1", "-timeout=60s", "-v", "-run", "^TestVerifModelReplay$", "./"+pkgRel)
+	cmd.Dir = repo
+	cmd.Env = append(os.Environ(), "GOFLAGS=", "GOPROXY=off", "GOSUMDB=off", "GOTOOLCHAIN=local")
+	out, _ := cmd.CombinedOutput()
+	output = string(out)
+	for _, ln := range strings.Split(output, "\n") {
+		if k := strings.Index(ln, "VERIF-REPLAY "); k >= 0 {
+			rest := ln[k+len("VERIF-REPLAY "):]
+			v := strings.SplitN(rest, ":", 2)[0]
+			return strings.TrimSpace(v), truncate(rest, 600)
+		}
+	}
+	return "not-replayable", "the generated test did not run: " + truncate(output, 800)
+}
+
+// tryReplay: replay of the solver's counterexample on the real code (see mreplay.go)
+func (cr *checkRun) tryReplay(v *OblResult) {
+	if len(v.Model) == 0 || v.Func == "" || v.Func == "structural" {
+		return
+	}
+	src, pkgRel, err := cr.P.genReplayTest(v.Func, v.Obl, v.Model)
+	if err != nil {
+		v.Replay = &ReplayOutcome{Ran: false, Verdict: "not-replayable", Output: err.Error()}
+		return
+	}
+	verdict, out := runModelReplay(cr.repo, pkgRel, src)
+	v.Replay = &ReplayOutcome{Ran: true, Verdict: verdict, Output: out, Package: pkgRel, Source: src}
 }
 
 func (cr *checkRun) writeReplay(v *OblResult, verifDir string) (string, string) {
 	rf := &ReplayFile{Property: cr.prop, Obligation: v.Obl.Name, Kind: v.Obl.Kind, Function: v.Func, Statement: v.Obl.Src,
 		Position: v.Obl.Pos, Status: v.Status, Solver: v.Solve.Backend, SolverOut: truncate(v.Solve.Output, 4000), SMT2: v.File, Model: v.Model}
 	tail := " no-failing-input-found"
-	rf.Note = "obligation generated from /repo's current source is not discharged; it is discharged on the pinned tree (see /verif/baseline_obligations.json)"
+	rf.Note = "obligation generated from /repo's current source is not discharged (it is discharged on the unchanged tree); no failing input was confirmed on the real code"
+	if v.Replay != nil && v.Replay.Verdict != "property-violated" {
+		rf.Note += " [replay of the solver model: " + v.Replay.Verdict + ": " + truncate(v.Replay.Output, 300) + "]"
+	}
 	if v.Replay != nil {
 		rf.Replay = v.Replay
 		if v.Replay.Verdict == "property-violated" {
 			tail = ""
-			rf.Note = "the solver's counterexample was replayed against the real code and violates the property oracle"
+			rf.Note = "the solver's counterexample was rebuilt as real objects, the real function was called on it and the failed clause is false on (or the function panics before reaching) the real post-state; re-run with /verif/bin/replay <this file>"
 		}
 	}
 	path := filepath.Join(verifDir, "replays", safeName(cr.prop+"-"+v.Obl.Name)+".json")
